@@ -2,6 +2,7 @@
 package c02
 
 import (
+	"unicode/utf8"
 	"archive/zip"
 	"bytes"
 	"compress/zlib"
@@ -52,7 +53,7 @@ func TestMain(m *testing.M) {
 	if err != nil {
 		panic(err)
 	}
-	arts.ExcludePEFewDirs, arts.ExcludeJAREdgeSpace = true, true
+	arts.ExcludePEFewDirs, arts.ExcludeJAREdgeSpace, arts.PSLegacyCodePage = true, true, true
 	env, err = pipe.Setup(workDir)
 	if err != nil {
 		panic(err)
@@ -664,6 +665,11 @@ func TestC02_ByteMutations(t *testing.T) {
 						rec.Add("verifier_panics_on_mutated_input", 1)
 						continue
 					}
+					if verr == nil && format == "ps" && knownSet.Has(kPSInvalidUTF8) && sameAfterUTF8Replacement(sa.data, mut) {
+						// listed finding: every byte that is not valid UTF-8 is digested as U+FFFD
+						rec.Excluded(kPSInvalidUTF8)
+						continue
+					}
 					if verr == nil {
 						cd.Error = "verifier accepted the mutated artefact"
 						evid.SaveCase("TestC02_"+format, cd)
@@ -680,6 +686,39 @@ func TestC02_ByteMutations(t *testing.T) {
 }
 
 var _ = exec.Command
+
+const kPSInvalidUTF8 = "C02:powershell-bytes-that-are-not-utf8-all-digest-alike"
+
+// sameAfterUTF8Replacement: two 8-bit scripts that differ only in bytes which are not
+// valid UTF-8 (each decodes to U+FFFD either way).
+func sameAfterUTF8Replacement(a, b []byte) bool {
+	if bytes.HasPrefix(a, []byte{0xff, 0xfe}) || bytes.Equal(a, b) || utf8.Valid(a) {
+		return false
+	}
+	return string([]rune(string(a))) == string([]rune(string(b)))
+}
+
+// TestC02_KnownProbes re-checks listed findings on minimal inputs.
+func TestC02_KnownProbes(t *testing.T) {
+	if knownSet.Has(kPSInvalidUTF8) {
+		dir := filepath.Join(workDir, "probe-ps")
+		os.Mkdir(dir, 0o755)
+		defer os.RemoveAll(dir)
+		p := filepath.Join(dir, "latin1.ps1")
+		os.WriteFile(p, []byte("Write-Host \"caf\xe9\"\r\n"), 0o644)
+		if err := env.SignLib(&pipe.Req{SigType: "ps", In: p, Key: "rsa2048a", Hash: crypto.SHA256}); err == nil {
+			signed, _ := os.ReadFile(p)
+			if i := bytes.IndexByte(signed, 0xe9); i >= 0 {
+				signed[i] = 0xe8 // "cafè"
+				os.WriteFile(p, signed, 0o644)
+				if _, err := env.Verify(&pipe.VerifyReq{Path: p}); err == nil {
+					rec.KnownFinding(kPSInvalidUTF8, "a signed Windows-1252 script still verifies after the byte 0xE9 (é) was changed to 0xE8 (è): both are digested as U+FFFD")
+				}
+			}
+		}
+	}
+	rec.Case("known-probes", "known-probes", false)
+}
 
 // pgpSigRegions: the parts of a binary v4 signature packet that are hashed into the
 // signature (version .. hashed subpackets) and the signature value itself. Packet
